@@ -58,7 +58,7 @@ Theorem C05_whole_run : forall c pkts ff a,
   (forall p r, pkts = p :: r -> known_sysid (r_system_id (hdr p)) = true) ->
   Interleave (sender_streams c (serialize pkts)) a ->
   run_check_sched ff c (serialize pkts) a = run_check ff c (serialize pkts).
-Proof. exact (fun c pkts ff a H1 H2 H3 H4 H5 => c05_whole_run c pkts (eq_refl : Gen.Facts.cdp_offset_sampled_after = true) H1 H2 H3 H4 H5 ff a
+Proof. exact (fun c pkts ff a H1 H2 H3 H4 H5 => c05_whole_run c pkts (eq_refl : Gen.Facts.cdp_offset_sampled_after = true) H1 H2 H3 (or_intror H4) H5 ff a
                 (eq_refl : Gen.Facts.error_sort_when_muted = true)). Qed.
 
 (* the model's own run IS one of these runs: the arrival order `one stream after the other` *)
@@ -73,7 +73,7 @@ Theorem C05_run_streams_ok : forall c pkts,
   (forall p, In p pkts -> layout_rp (hdr p) (p_payload p)) ->
   (forall p r, pkts = p :: r -> known_sysid (r_system_id (hdr p)) = true) ->
   streams_ok (sender_streams c (serialize pkts)).
-Proof. exact (fun c pkts => whole_streams_ok c pkts (eq_refl : Gen.Facts.cdp_offset_sampled_after = true)). Qed.
+Proof. exact (fun c pkts H1 H2 H3 H4 => whole_streams_ok c pkts (eq_refl : Gen.Facts.cdp_offset_sampled_after = true) H1 H2 H3 (or_intror H4)). Qed.
 
 (* non-vacuity: two links interleaved, each with a faulty RDH (priority bit): two validators report, the streams can be
    delivered in another order than the model's, and the hypotheses of the theorem hold *)
